@@ -1328,6 +1328,54 @@ func sectionWalletV5() {
 	}
 }
 
+// wallet v3: subwallet_id:uint32 valid_until:uint32 msg_seqno:uint32 (mode:uint8 out_msg:^(MessageRelaxed Any))*
+// wallet v4: subwallet_id:uint32 valid_until:uint32 msg_seqno:uint32 op:int8 (mode:uint8 out_msg:^(MessageRelaxed Any))*
+// (up to 4 messages: one reference each; every mode is the byte the caller gave, 0 included)
+func sectionWalletV3V4() {
+	u32s := []uint32{0, 1, 698983191, 1<<31 - 1, 1 << 31, 1<<32 - 1}
+	modes := []uint8{0, 1, 2, 3, 64, 128, 130, 255}
+	n := R.N(600, 60000)
+	for k := 0; k < n; k++ {
+		rng := R.Rng("w34", k)
+		pick32 := func() uint32 {
+			if rng.Bool() {
+				return mon.Pick(rng, u32s)
+			}
+			return uint32(rng.Uint64())
+		}
+		cnt := k % 5
+		var payload wallet.PayloadV1toV4
+		var pbits []bool
+		var prefs []*cell.Cell
+		for i := 0; i < cnt; i++ {
+			mode := mon.Pick(rng, modes)
+			if rng.Chance(1, 3) {
+				mode = uint8(rng.Uint64())
+			}
+			if i == k/5%4 && k%2 == 0 {
+				mode = 0
+			}
+			msg := genCell(rng, 1)
+			tc := tongoCell(msg)
+			payload = append(payload, wallet.RawMessage{Message: &tc, Mode: mode})
+			pbits = cat(pbits, rb.UintBits(uint64(mode), 8))
+			prefs = append(prefs, msg)
+			R.Seen("w34_modes", fmt.Sprint(mode))
+		}
+		sub, until, seqno := pick32(), pick32(), pick32()
+		op := int8(mon.Pick(rng, []int{0, 1, 2, 3, -1, -128, 127, int(int8(rng.Uint64()))}))
+		wit := map[string]any{"case": k, "messages": cnt, "payload": fmt.Sprintf("%x", rb.ToBytes(pbits)), "subwallet": sub, "valid_until": until, "seqno": seqno, "op": op}
+		R.EvalN(3, fmt.Sprintf("w34/%d/%d", cnt, k))
+		R.Seen("w34_message_counts", fmt.Sprint(cnt))
+		expect("PayloadV1toV4", marshal("PayloadV1toV4", payload, wit), cell.New(pbits, false, prefs...), wit)
+		head := cat(rb.UintBits(uint64(sub), 32), rb.UintBits(uint64(until), 32), rb.UintBits(uint64(seqno), 32))
+		expect("MessageV3", marshal("MessageV3", wallet.MessageV3{SubWalletId: sub, ValidUntil: until, Seqno: seqno, RawMessages: payload}, wit),
+			cell.New(cat(head, pbits), false, prefs...), wit)
+		expect("MessageV4", marshal("MessageV4", wallet.MessageV4{SubWalletId: sub, ValidUntil: until, Seqno: seqno, Op: op, RawMessages: payload}, wit),
+			cell.New(cat(head, rb.IntBits(int64(op), 8), pbits), false, prefs...), wit)
+	}
+}
+
 // ---------------------------------------------------------------- destination cells
 
 // tlb.Marshal(c, v) appends the encoding of v to the cell the caller hands in.
@@ -1839,7 +1887,7 @@ func main() {
 		tier = os.Args[1]
 	}
 	R = mon.Start("C04", tier)
-	R.Rule = "(1) every UintN/IntN/VarUIntegerN/BitsN type of the registry at its boundary values, Go integer kinds, Unary, Magic tags (# and $), the first bits of every tagged struct and of every constructor of every reflectively encoded union, Maybe/Either/EitherRef/Ref and the ^/maybe/maybe^ field tags, compared bit by bit with an independent bit-list encoder; (2) MsgAddress (4 kinds, anycast), Grams, CurrencyCollection, CommonMsgInfo (3 kinds), StateInit, Message (init none/inline/ref x body inline/ref) and ton.CreateExternalMessage over random values against reference encoders transcribed from block.tlb (bits and refs, recursively); SimpleLib, Account (none/uninit/active/frozen) and ShardAccount; where the schema has ^Cell (state-init code/data, SimpleLib root, vm_stk_cell/builder) a third of the cells are exotic (library, Merkle proof/update, pruned branch) and a quarter of the referenced message bodies are library cells: the reference must point to that very cell (type compared, and the representation hash against the reference model when no pruned branch is involved); VM stacks also built with Put (bottom value first), stack slices covering a part of their cell (decoded from a reference encoding, re-encoded, and VmCellSlice.Cell() against the sub-slice), Int257FromInt64 / VarUInteger16FromInt64 at int64 boundaries; the wallet-v5 value types W5Actions (0..10 actions, 255 at the thorough tier, distinct modes and messages), W5ExtendedActions, MessageV5 (3 constructors x actions present/absent x extended actions) and MessageV5Beta against a transcription of the wallet-v5 schema; destination classes of tlb.Marshal(c, v): c fresh / parsed from a BOC written by tongo, by the reference writer, or through the JSON form, each empty / with a byte-aligned / with an unaligned prefix of bits (and a reference), for 12 kinds of values with hash, BitsN, byte-array, address, number and ^Cell fields: what follows the prefix equals the reference encoding; user-defined structs (built with reflect.StructOf) with [N]byte fields, N = 1..127 bytes (every N at the thorough tier, a spread around 63/64/65, 96, 127 at quick), alone / between other fields / two in a row, bit-exact and decoded back from the produced and from the reference cell; (3) every transaction and message of the real blocks (tlb/testdata and ton/testdata/raw-13516764.bin) re-encoded and compared by hash with its source cell wherever the encoding is unique (no non-empty dictionary, no unimplemented encoder), and once more after every cell of the decoded record has been read in place (32 bits, one reference); non-trivial = an encoding that was compared; distinct = distinct (structure, shape, value/case)"
+	R.Rule = "(1) every UintN/IntN/VarUIntegerN/BitsN type of the registry at its boundary values, Go integer kinds, Unary, Magic tags (# and $), the first bits of every tagged struct and of every constructor of every reflectively encoded union, Maybe/Either/EitherRef/Ref and the ^/maybe/maybe^ field tags, compared bit by bit with an independent bit-list encoder; (2) MsgAddress (4 kinds, anycast), Grams, CurrencyCollection, CommonMsgInfo (3 kinds), StateInit, Message (init none/inline/ref x body inline/ref) and ton.CreateExternalMessage over random values against reference encoders transcribed from block.tlb (bits and refs, recursively); SimpleLib, Account (none/uninit/active/frozen) and ShardAccount; where the schema has ^Cell (state-init code/data, SimpleLib root, vm_stk_cell/builder) a third of the cells are exotic (library, Merkle proof/update, pruned branch) and a quarter of the referenced message bodies are library cells: the reference must point to that very cell (type compared, and the representation hash against the reference model when no pruned branch is involved); VM stacks also built with Put (bottom value first), stack slices covering a part of their cell (decoded from a reference encoding, re-encoded, and VmCellSlice.Cell() against the sub-slice), Int257FromInt64 / VarUInteger16FromInt64 at int64 boundaries; the wallet-v5 value types W5Actions (0..10 actions, 255 at the thorough tier, distinct modes and messages), W5ExtendedActions, MessageV5 (3 constructors x actions present/absent x extended actions) and MessageV5Beta against a transcription of the wallet-v5 schema; PayloadV1toV4 / MessageV3 / MessageV4 (0..4 messages, modes incl. 0, 1, 3, 128, 255, edge values of subwallet / valid-until / seqno / op) against the wallet v3/v4 body layout; destination classes of tlb.Marshal(c, v): c fresh / parsed from a BOC written by tongo, by the reference writer, or through the JSON form, each empty / with a byte-aligned / with an unaligned prefix of bits (and a reference), for 12 kinds of values with hash, BitsN, byte-array, address, number and ^Cell fields: what follows the prefix equals the reference encoding; user-defined structs (built with reflect.StructOf) with [N]byte fields, N = 1..127 bytes (every N at the thorough tier, a spread around 63/64/65, 96, 127 at quick), alone / between other fields / two in a row, bit-exact and decoded back from the produced and from the reference cell; (3) every transaction and message of the real blocks (tlb/testdata and ton/testdata/raw-13516764.bin) re-encoded and compared by hash with its source cell wherever the encoding is unique (no non-empty dictionary, no unimplemented encoder), and once more after every cell of the decoded record has been read in place (32 bits, one reference); non-trivial = an encoding that was compared; distinct = distinct (structure, shape, value/case)"
 	R.Assume("reference encoders in props/c04 are literal transcriptions of the block.tlb constructors quoted above them; dictionaries are kept empty in (2) because label forms are a free choice")
 	R.Assume("source-cell hashes of real records are the ones tongo reports (Transaction.Hash, Message.Hash(false)); that they equal the reference hash of a cell of the block is C16's business")
 	R.Assume("exotic cells are handed to tongo as in-memory cells (boc.NewCellExotic) with ordinary children; a pruned branch below a built cell is compared structurally only, because cells built in memory carry no level mask (hash and level of such trees are C02's business)")
@@ -1850,6 +1898,7 @@ func main() {
 	sectionStructures()
 	sectionVmStack()
 	sectionWalletV5()
+	sectionWalletV3V4()
 	sectionDestinations()
 	sectionByteArrays()
 	sectionReal()
